@@ -747,6 +747,13 @@ def setraw_cases(E, ctx):
         if rc is not None:
             old = z3.If(z3.Select(ctx.old_has(rc), h), z3.Select(ctx.old_val(rc), h), 0)
             out.append(("counted", mk_bool(z3.And(z3.Select(rc.has, h), z3.Select(rc.val, h) == old + 1))))
+            k = z3.Const("k!rc", SeqI)
+            out.append(("other-counts-untouched", mk_bool(z3.ForAll([k], z3.Implies(k != h, z3.And(
+                z3.Select(rc.has, k) == z3.Select(ctx.old_has(rc), k),
+                z3.Select(rc.val, k) == z3.Select(ctx.old_val(rc), k))), patterns=[z3.Select(rc.val, k)]))))
+            if not hasattr(ctx, "outcome"):
+                g = z3.Const("h!count", SeqI)
+                E.assume(mk_bool(dict_at(rc.has, rc.val, g) == dict_at(ctx.old_has(rc), ctx.old_val(rc), g) + z3.If(g == h, 1, 0)))
         return out
 
     def ret():
@@ -1006,7 +1013,15 @@ def count_delta_clause(E, ctx, Dold, Dnew, rc, pend, h=None):
     h = HG0 if h is None else h
     HM.unfold_hrefs(E, Dold, h)
     HM.unfold_hrefs(E, Dnew, h)
-    return net_count(rc, pend, h) - net_count(rc, pend, h, ctx) == HM.hrefs(Dnew, h) - HM.hrefs(Dold, h) - self_count(E, Dold, h)
+    db = ctx.self.fields["db"]
+    delta = net_count(rc, pend, h) - net_count(rc, pend, h, ctx) == HM.hrefs(Dnew, h) - HM.hrefs(Dold, h) - self_count(E, Dold, h)
+    # a node enters the store exactly when it is counted: stored afterwards iff stored before or counted meanwhile
+    # (counts only grow inside one update; pruning happens at the end)
+    tracked = z3.And(z3.Select(db.has, h) == z3.Or(z3.Select(ctx.old_has(db), h),
+                                                   dict_at(rc.has, rc.val, h) > dict_at(ctx.old_has(rc), ctx.old_val(rc), h)),
+                     dict_at(rc.has, rc.val, h) >= dict_at(ctx.old_has(rc), ctx.old_val(rc), h),
+                     dict_at(pend.has, pend.val, h) >= dict_at(ctx.old_has(pend), ctx.old_val(pend), h))
+    return z3.And(delta, tracked)
 
 
 def pruning_trie(E):
@@ -1132,6 +1147,7 @@ def norm_cases(E, ctx):
             HM.unfold_hrefs(E, HM.alpha(r), HG0)
             E.assume(mk_bool(net_count(rc_, pend_, HG0) - net_count(rc_, pend_, HG0, ctx) ==
                              HM.hrefs(HM.alpha(r), HG0) - HM.hrefs(Dold, HG0)))
+            E.assume(mk_bool(dict_at(pend_.has, pend_.val, HG0) >= dict_at(ctx.old_has(pend_), ctx.old_val(pend_), HG0)))
             return r
     return [Case("kept", when=mk_bool(cnt >= 2), returns=lambda: Is(node)),
             Case("collapsed", when=mk_bool(cnt == 1), ensures=ens if unit_mode else None, make=None if unit_mode else make,
@@ -1159,7 +1175,9 @@ def norm_pruning_cases(E, ctx):
         HM.unfold_hrefs(E, Dold, HG0)
         HM.unfold_hrefs(E, Dn, HG0)
         return [("count-delta", mk_bool(net_count(rc, pend, HG0) - net_count(rc, pend, HG0, ctx) ==
-                                        HM.hrefs(Dn, HG0) - HM.hrefs(Dold, HG0)))]
+                                        HM.hrefs(Dn, HG0) - HM.hrefs(Dold, HG0))),
+                ("pending-only-grows", mk_bool(dict_at(pend.has, pend.val, HG0) >=
+                                               dict_at(ctx.old_has(pend), ctx.old_val(pend), HG0)))]
     return [Case("normalised", ensures=ens, modifies=[pend]),
             Case("missing-node", raises=KeyError, modifies=[])]
 
@@ -1258,7 +1276,7 @@ def del_cases(E, ctx):
     if pruning and not unit_mode:
         rc_, pend_ = s.fields["_ref_count"], s.fields["_pending_prune_keys"]
         mods = mods + [rc_, pend_]
-        emods, mmods = [pend_], lmods + [rc_, pend_]
+        emods, mmods = [pend_], lmods + [pend_]          # a failing delete has counted nothing (C07): only marks
         me0, mu0 = make_emptied, make_updated
 
         def make_emptied():
@@ -1299,8 +1317,9 @@ def del_pruning_cases(E, ctx):
     def ens(res):
         return [("count-delta", mk_bool(count_delta_clause(E, ctx, Dold, HM.alpha(res), rc, pend)))]
     mods = [db, rc, pend] + ([ctx.node] if isinstance(ctx.node, ListObj) else [])
+    fmods = [pend] + ([ctx.node] if isinstance(ctx.node, ListObj) else [])
     return [Case("updated", ensures=ens, modifies=mods),
-            Case("missing-node", raises=KeyError, modifies=mods)]
+            Case("missing-node", raises=KeyError, modifies=fmods)]
 
 
 def _merged_path_facts(E, Dn, q, K):
@@ -1367,7 +1386,59 @@ def setroot_cases(E, ctx):
             e = HM.x_encode_raw(E, ctx.root_node)
             E.keccak(e)
         return post()
-    return [Case("root-set", returns=lambda: None, post=make_post, modifies=[db, (s, "root_hash")])]
+    pruning = s.fields.get("is_pruning") is True
+    mods = [db, (s, "root_hash")]
+    if pruning and not hasattr(ctx, "outcome"):
+        rc_, pend_ = s.fields["_ref_count"], s.fields["_pending_prune_keys"]
+        mods = mods + [rc_, pend_]
+        mp0 = make_post
+
+        def make_post():
+            out = mp0()
+            for c in setroot_count_clauses(E, ctx, D, rc_, pend_):          # clauses of _set_root_node#pruning
+                E.assume(c[1])
+            return out
+    return [Case("root-set", returns=lambda: None, post=make_post, modifies=mods)]
+
+
+def setroot_count_clauses(E, ctx, D, rc, pend):
+    """what _set_root_node does to the counts of a pruning trie, at the ghost hash: the new root is counted (it is
+    always stored by hash), and an old root that was too small for _prune_node to notice is marked for pruning"""
+    s = ctx.self
+    db = s.fields["db"]
+    g = HG0
+    BNH = HM.blank_node_hash(E)
+    old_root = HM.bytes_of(ctx.old_field(s, "root_hash"))
+    Dold = HM.hnode_of_hash(old_root)
+    enc_old, small_old = mk_ref_parts(E, Dold)
+    enc = z3.simplify(HM.rlpenc(D))
+    new_root = z3.If(HNode.is_HBlank(D), BNH, specfn.keccak(enc))
+    marked = z3.And(old_root != BNH, z3.Select(ctx.old_has(db), old_root), small_old, old_root == g)
+    return [("new-root-counted", mk_bool(dict_at(rc.has, rc.val, g) == dict_at(ctx.old_has(rc), ctx.old_val(rc), g) +
+                                         z3.If(z3.And(z3.Not(HNode.is_HBlank(D)), new_root == g), 1, 0))),
+            ("small-old-root-marked", mk_bool(dict_at(pend.has, pend.val, g) ==
+                                              dict_at(ctx.old_has(pend), ctx.old_val(pend), g) + z3.If(marked, 1, 0))),
+            ("store-tracked", mk_bool(z3.Select(db.has, g) == z3.Or(z3.Select(ctx.old_has(db), g),
+                                                                     z3.And(z3.Not(HNode.is_HBlank(D)), new_root == g))))]
+
+
+def setroot_pruning_setup(E):
+    t = pruning_trie(E)
+    D = z3.Const(E.fresh_name("n.D"), HNode)
+    E.assume(mk_bool(HM.hwfp(D)))
+    HM.unfold_wf(E, D)
+    node = HM.materialize(E, D)
+    return {"self": t, "root_node": node}
+
+
+def setroot_pruning_cases(E, ctx):
+    s = ctx.self
+    db, rc, pend = s.fields["db"], s.fields["_ref_count"], s.fields["_pending_prune_keys"]
+    D = HM.alpha(ctx.root_node)
+
+    def post():
+        return setroot_count_clauses(E, ctx, D, rc, pend)
+    return [Case("root-set", returns=lambda: None, post=post, modifies=[db, rc, pend, (s, "root_hash")])]
 
 
 def setroot_requires(E, ctx):
@@ -1438,10 +1509,65 @@ def api_write_cases(kind):
     return cases
 
 
+# set / delete on a pruning trie (C06): exactness is preserved.  Invariant of a pruning trie that started on an empty
+# database, stated at an arbitrary hash g:   count(g) = RC(root, g)   and   g is stored  <=>  count(g) >= 1
+# with RC(root, g) = [root = g] + hrefs(node(root), g)  (0 for the blank root).
+
+def RC(E, root, g):
+    return z3.If(root == HM.blank_node_hash(E), 0, z3.If(root == g, 1, 0) + HM.hrefs(HM.hnode_of_hash(root), g))
+
+
+def exact_at(E, db_has, rc_has, rc_val, root, g):
+    c = dict_at(rc_has, rc_val, g)
+    return z3.And(c == RC(E, root, g), z3.Select(db_has, g) == (c >= 1))
+
+
+def api_pruning_setup(with_value):
+    def setup(E):
+        t = write_trie(E, pruning=True)                 # outside of any set / delete: no pending prunes
+        E.ghost["hex_value_slots"] = True
+        db, rc = t.fields["db"], t.fields["_ref_count"]
+        root = t.fields["root_hash"].t
+        for g in (HG0, root):                           # the invariant, at the ghost hash and at the root itself
+            E.assume(mk_bool(exact_at(E, db.has, rc.has, rc.val, root, g)))
+            HM.unfold_hrefs(E, HM.hnode_of_hash(root), g)
+        args = {"self": t, "key": E.fresh_seq("key", "bytes")}
+        if with_value:
+            args["value"] = E.fresh_seq("value", "bytes")
+        E.ghost["q0"] = HM.nibs(E, "q0").t
+        return args
+    return setup
+
+
+def api_pruning_cases(E, ctx):
+    s = ctx.self
+    db, rc = s.fields["db"], s.fields["_ref_count"]
+
+    def post():
+        new_root = HM.bytes_of(s.fields["root_hash"])
+        HM.unfold_hrefs(E, HM.hnode_of_hash(new_root), HG0)
+        return [("counts-and-store-stay-exact", mk_bool(exact_at(E, db.has, rc.has, rc.val, new_root, HG0))),
+                ("no-pending-prunes-left", s.fields["_pending_prune_keys"] is None)]
+
+    def post_failed():
+        return [("no-pending-prunes-left", s.fields["_pending_prune_keys"] is None)]
+    return [Case("updated", returns=lambda: None, post=post, modifies=[db, rc, (s, "root_hash")]),
+            Case("missing-node", raises=objs.exc(E, "MissingTrieNode"), post=post_failed, modifies=[]),
+            Case("node-to-prune-is-missing", raises=objs.exc(E, "ValidationError"), modifies=[db, rc, (s, "root_hash")])]
+
+
 def _register_api_write(reg):
     H = HEX + ":HexaryTrie."
+    reg.add("hexary_prune", Contract(H + "set#pruning", ["self", "key", "value"], api_pruning_cases,
+                                     setup=api_pruning_setup(True), props=("C06", "C01", "C07"), callee=False, target=H + "set"))
+    reg.add("hexary_prune", Contract(H + "delete#pruning", ["self", "key"], api_pruning_cases,
+                                     setup=api_pruning_setup(False), props=("C06", "C01", "C07"), callee=False,
+                                     target=H + "delete"))
     reg.add("hexary_store", Contract(H + "_set_root_node", ["self", "root_node"], setroot_cases, setup=setroot_setup,
                                      requires=setroot_requires, props=("C01", "C02", "C04")))
+    reg.add("hexary_prune", Contract(H + "_set_root_node#pruning", ["self", "root_node"], setroot_pruning_cases,
+                                     setup=setroot_pruning_setup, props=("C06",), callee=False,
+                                     target=H + "_set_root_node"))
     g = "hexary_api"
     reg.add(g, Contract(H + "set", ["self", "key", "value"], api_write_cases("set"), setup=api_write_setup(True),
                         props=("C01", "C02", "C04", "C07")))
@@ -1542,9 +1668,6 @@ def cp_setup(E):
     t.fields["db"].hooks = None          # this unit only deletes; the content-addressing hooks concern writes
     pend = E.fresh_dict("pending", "bytes", "int", default=0)
     t.fields["_pending_prune_keys"] = pend
-    k = z3.Const("k!pos", SeqI)
-    E.assume(mk_bool(z3.ForAll([k], z3.Implies(z3.Select(pend.has, k), z3.Select(pend.val, k) >= 1),
-                               patterns=[z3.Select(pend.val, k)])))
     E.ghost["cp0"] = (t.fields["db"].has, t.fields["db"].val, t.fields["_ref_count"].has, t.fields["_ref_count"].val)
     return {"self": t}
 
@@ -1577,11 +1700,20 @@ def cp_inv(E, fr, done):
 def cp_cases(E, ctx):
     s = ctx.self
     db, rc, pend = s.fields["db"], s.fields["_ref_count"], s.fields["_pending_prune_keys"]
-    db0h, db0v, rc0h, rc0v = E.ghost["cp0"]
+    unit_mode = hasattr(ctx, "outcome")
+    if unit_mode:
+        db0h, db0v, rc0h, rc0v = E.ghost["cp0"]
+    else:
+        db0h, db0v, rc0h, rc0v = ctx.old_has(db), ctx.old_val(db), ctx.old_has(rc), ctx.old_val(rc)
+        E.dict_type(pend, b"", 0)
     k = z3.Const("k!cppost", SeqI)
 
     def post():
         body = _cp_state(db.has, db.val, rc.has, rc.val, db0h, db0v, rc0h, rc0v, pend.has, pend.val, pend.has, k)
+        if not unit_mode:
+            # the per-key state at the ghost hash of the count clauses (instance of the quantified postcondition)
+            E.assume(mk_bool(_cp_state(db.has, db.val, rc.has, rc.val, db0h, db0v, rc0h, rc0v, pend.has, pend.val,
+                                       pend.has, HG0)))
         return [("every-pending-prune-applied-exactly", mk_bool(z3.ForAll([k], body)))]
     return [Case("pruned", returns=lambda: None, post=post, modifies=[db, rc]),
             Case("node-to-prune-is-missing", raises=objs.exc(E, "ValidationError"), modifies=[db, rc])]
@@ -1592,8 +1724,7 @@ def _register_prune(reg):
     reg.add("hexary_prune", Contract(H + "_complete_pruning", ["self"], cp_cases, setup=cp_setup, props=("C06", "C04"),
                                      loops={0: LoopSpec(cp_inv, havoc=lambda fr: [fr.locals["self"].fields["db"],
                                                                                   fr.locals["self"].fields["_ref_count"]],
-                                                        fresh={"new_count": "unbound", "exc": "unbound"})},
-                                     callee=False))
+                                                        fresh={"new_count": "unbound", "exc": "unbound"})}))
 
 
 # ---------------------------------------------------------------------------------------------------
